@@ -85,3 +85,7 @@ Qed.
 
 Lemma firstn_len_ge {A} (l : list A) k : len l <= k -> firstn (Z.to_nat k) l = l.
 Proof. intros. apply firstn_all2. unfold len in *. lia. Qed.
+
+Lemma slice_app' {A} (l : list A) a n b m k :
+  a + n = b -> n + m = k -> 0 <= a -> 0 <= n -> 0 <= m -> slice l a n ++ slice l b m = slice l a k.
+Proof. intros <- <- Ha Hn Hm. apply slice_app; assumption. Qed.
